@@ -1,7 +1,8 @@
 -------------------------------- MODULE PartitionLin --------------------------------
 (* Linearisability of concurrent histories of the partitioned strategies against the          *)
 (* sequential contract spec/Partition.tla (the concurrent half of C03 / C02 / C05): every call *)
-(* of free-running goroutines (TryAcquire with a key, release of a token, SetLimit) is logged   *)
+(* of free-running goroutines (TryAcquire with a key, release of a token, SetLimit, adding and *)
+(* removing partitions) is logged                                                               *)
 (* with begin / end events numbered by one atomic counter; TLC searches for linearisation       *)
 (* points (Lin steps) such that each call returns what Apply returns at its point, and the      *)
 (* state read back once everything is quiet equals the contract's final state.                  *)
@@ -23,7 +24,7 @@ ReadReset ==
 ReadBegin ==
   /\ l <= Len(Log) /\ Log[l].t = "b"
   /\ l' = l + 1
-  /\ open' = [i \in Ids \cup {Log[l].id} |-> IF i = Log[l].id THEN [op |-> Log[l].op, lin |-> FALSE, ok |-> FALSE] ELSE open[i]]
+  /\ open' = [i \in Ids \cup {Log[l].id} |-> IF i = Log[l].id THEN [op |-> Log[l].op, lin |-> FALSE, ok |-> FALSE, res |-> [ok |-> FALSE]] ELSE open[i]]
   /\ UNCHANGED <<cfg, s, granted>>
 
 Lin(i) ==
@@ -37,7 +38,7 @@ Lin(i) ==
           /\ open' = [open EXCEPT ![i].lin = TRUE, ![i].ok = TRUE]
      ELSE LET r == Apply(cfg, s, o) IN
           /\ s' = r.st
-          /\ open' = [open EXCEPT ![i].lin = TRUE, ![i].ok = r.res.ok]
+          /\ open' = [open EXCEPT ![i].lin = TRUE, ![i].ok = r.res.ok, ![i].res = r.res]
           /\ granted' = IF o.op = "try" /\ r.res.ok
                         THEN [j \in DOMAIN granted \cup {i} |-> IF j = i THEN r.res.bin ELSE granted[j]]
                         ELSE granted
@@ -47,6 +48,8 @@ ReadEnd ==
   /\ l <= Len(Log) /\ Log[l].t = "e"
   /\ LET i == Log[l].id IN
      /\ i \in Ids /\ open[i].lin /\ open[i].ok = Log[l].ok
+     \* a removal also reports what it removed and how many tokens of it were out at that instant
+     /\ open[i].op.op = "rem" => Log[l].res = open[i].res
      /\ open' = [j \in Ids \ {i} |-> open[j]]
   /\ l' = l + 1
   /\ UNCHANGED <<cfg, s, granted>>
